@@ -300,17 +300,59 @@ fn fracs_of(v: &Value) -> Vec<f64> {
 }
 
 /// One timed read while the peer is known to be silent: it has to come back, with Timeout.
-fn silent_read(log: &mut Log, s: &mut Stream, dir: u8, d_us: u64, interrupts: &[f64]) {
+/// what is asserted about a limit given in nanoseconds, in the log's microseconds (both stamps are
+/// truncated to microseconds, hence one less): a LOWER bound only
+fn lower_bound_us(d_ns: u64) -> i64 {
+    (d_ns / 1000).saturating_sub(1) as i64
+}
+fn silent_read(log: &mut Log, s: &mut Stream, dir: u8, d_ns: u64, interrupts: &[f64]) {
     let mut buf = [0u8; 16];
-    let intr = if interrupts.is_empty() { None } else { Some(Interrupter::start(d_us, interrupts)) };
+    let intr = if interrupts.is_empty() { None } else { Some(Interrupter::start(d_ns / 1000, interrupts)) };
     let st = log.start();
-    let r = guarded(|| s.read(&mut buf, Some(Duration::from_micros(d_us))));
+    let r = guarded(|| s.read(&mut buf, Some(Duration::from_nanos(d_ns))));
     let nsig = intr.map_or(0, Interrupter::stop);
     let (class, errno) = res_of(&r);
     let k = if let Ok(Ok(k)) = &r { *k } else { 0 };
     let res = if class == "ok" && k == 0 { "eof" } else { class };
     log.done("read_to", st, json!({"req": 16, "res": res, "n": k, "errno": errno, "dir": dir, "off": 0, "match": k == 0, "bad_at": -1,
-                                   "d": d_us as i64, "silent_peer": true, "signals": nsig}));
+                                   "d": lower_bound_us(d_ns), "d_ns": d_ns, "silent_peer": true, "signals": nsig}));
+}
+
+/// connect_with_timeout against a listener that never answers: a raw libc listener with backlog 0 whose
+/// accept queue is filled first, so further SYNs are dropped.  Each call has to return (Timeout).
+fn connect_probes(log: &mut Log, ds: &[Value]) {
+    unsafe {
+        let lfd = libc::socket(libc::AF_INET, libc::SOCK_STREAM | libc::SOCK_CLOEXEC, 0);
+        let mut a: libc::sockaddr_in = std::mem::zeroed();
+        a.sin_family = libc::AF_INET as u16;
+        a.sin_addr.s_addr = u32::from_ne_bytes([127, 0, 0, 1]);
+        assert_eq!(0, libc::bind(lfd, std::ptr::addr_of!(a).cast(), std::mem::size_of::<libc::sockaddr_in>() as u32));
+        assert_eq!(0, libc::listen(lfd, 0));
+        let mut len = std::mem::size_of::<libc::sockaddr_in>() as u32;
+        libc::getsockname(lfd, std::ptr::addr_of_mut!(a).cast(), &mut len);
+        let port = u16::from_be(a.sin_port);
+        // fill the accept queue (and the SYN backlog behind it)
+        let mut fillers = Vec::new();
+        for _ in 0..4 {
+            let c = libc::socket(libc::AF_INET, libc::SOCK_STREAM | libc::SOCK_NONBLOCK | libc::SOCK_CLOEXEC, 0);
+            libc::connect(c, std::ptr::addr_of!(a).cast(), len);
+            fillers.push(c);
+        }
+        std::thread::sleep(Duration::from_millis(5));
+        for d in ds {
+            let d_ns = d.as_u64().unwrap();
+            let st = log.start();
+            let r = guarded(|| TcpStream::connect_with_timeout(&SocketAddress::new(Ip::V4([127, 0, 0, 1]), port), Duration::from_nanos(d_ns)));
+            let (class, errno) = res_of(&r);
+            // a success (the queue had room after all) is not what is probed: logged as a neutral event
+            let (op, res) = if class == "ok" { ("probe", "ok") } else { ("connect_to", class) };
+            log.done(op, st, json!({"res": res, "errno": errno, "d": lower_bound_us(d_ns), "d_ns": d_ns, "listening": false, "nothing_answers": true}));
+        }
+        for c in fillers {
+            libc::close(c);
+        }
+        libc::close(lfd);
+    }
 }
 
 fn u64s(v: &Value) -> Vec<u64> {
@@ -376,6 +418,21 @@ fn run_stream_plan(id: usize, plan: &Value, workdir: &str) -> Value {
         };
         set_bufs(lfd, plan["sndbuf"].as_i64().unwrap_or(0), plan["rcvbuf"].as_i64().unwrap_or(0));
         lb_s.wait();
+        // accept_with_timeout while NOBODY connects (the client is held back): it has to return, with Timeout
+        if let Some(ds) = plan["accept_probe_ns"].as_array() {
+            for d in ds {
+                let d_ns = d.as_u64().unwrap();
+                let st = log.start();
+                let r: Result<tiny_std::Result<()>, String> = guarded(|| match &mut l {
+                    Listener::U(l) => l.accept_with_timeout(Duration::from_nanos(d_ns)).map(|_s| ()),
+                    Listener::T(l) => l.accept_with_timeout(Duration::from_nanos(d_ns)).map(|_s| ()),
+                });
+                let (class, errno) = res_of(&r);
+                log.done("accept_to", st, json!({"res": if class == "ok" { "phantom" } else { class }, "errno": errno, "d": lower_bound_us(d_ns), "d_ns": d_ns,
+                                                 "nonblock": true, "nothing_pending": true}));
+            }
+            stage_s.reach(1);
+        }
         sleep_ms(ms(&plan["accept_delay_ms"]));
         let kind = plan["accept"]["kind"].as_str().unwrap_or("plain").to_string();
         let d_us = plan["accept"]["d_us"].as_u64().unwrap_or(0);
@@ -426,12 +483,14 @@ fn run_stream_plan(id: usize, plan: &Value, workdir: &str) -> Value {
         }
         let Some(mut s) = stream else { return log.evs };
         set_bufs(s.fd(), plan["sndbuf"].as_i64().unwrap_or(0), 0);
-        // phase 0 (TCP): a timed read on the freshly constructed stream while the peer is silent
-        if let (Some(d), Stream::T(_)) = (plan["silent_us"].as_u64(), &s) {
-            stage_s.wait(1);                 // the client holds its stream and stays silent
-            silent_read(&mut log, &mut s, 1, d, &fracs_of(&plan["interrupts"]));
-            stage_s.reach(2);
-            stage_s.wait(3);                 // the client's own silent read is over
+        // phase 0 (TCP): timed reads on the freshly constructed stream while the peer is silent
+        if let (Some(ds), Stream::T(_)) = (plan["silent_ns"].as_array(), &s) {
+            stage_s.wait(2);                 // the client holds its stream and stays silent
+            for d in ds {
+                silent_read(&mut log, &mut s, 1, d.as_u64().unwrap(), &fracs_of(&plan["interrupts"]));
+            }
+            stage_s.reach(3);
+            stage_s.wait(4);                 // the client's own silent reads are over
         }
         // phase 1: client -> server
         sleep_ms(ms(&plan["cs"]["reader_delay_ms"]));
@@ -511,6 +570,12 @@ fn run_stream_plan(id: usize, plan: &Value, workdir: &str) -> Value {
             s = connect(&mut log, &kind, 1);
         }
         lb_c.wait();
+        if plan["accept_probe_ns"].is_array() {
+            stage_c.wait(1);
+        }
+        if let (Some(ds), true) = (plan["connect_probe_ns"].as_array(), fam_c == "tcp") {
+            connect_probes(&mut log, ds);
+        }
         sleep_ms(ms(&plan["connect_delay_ms"]));
         let port = port_c.load(Ordering::SeqCst);
         for _ in 0..200 {
@@ -525,11 +590,13 @@ fn run_stream_plan(id: usize, plan: &Value, workdir: &str) -> Value {
         }
         let Some(mut s) = s else { return log.evs };
         set_bufs(s.fd(), plan["sndbuf"].as_i64().unwrap_or(0), plan["rcvbuf"].as_i64().unwrap_or(0));
-        if let (Some(d), Stream::T(_)) = (plan["silent_us"].as_u64(), &s) {
-            stage_c.reach(1);                // connected, silent from here on
-            stage_c.wait(2);                 // the server's timed read on its new stream came back
-            silent_read(&mut log, &mut s, 2, d, &fracs_of(&plan["interrupts"]));
-            stage_c.reach(3);
+        if let (Some(ds), Stream::T(_)) = (plan["silent_ns"].as_array(), &s) {
+            stage_c.reach(2);                // connected, silent from here on
+            stage_c.wait(3);                 // the server's timed reads on its new stream came back
+            for d in ds {
+                silent_read(&mut log, &mut s, 2, d.as_u64().unwrap(), &fracs_of(&plan["interrupts"]));
+            }
+            stage_c.reach(4);
         }
         sleep_ms(ms(&plan["cs"]["writer_delay_ms"]));
         if !write_all_chunks(&mut log, &mut s, 1, plan["cs"]["n"].as_u64().unwrap(), &u64s(&plan["cs"]["wchunks"])) {
